@@ -171,6 +171,108 @@ def _arg_fate(prog, fn, c, idx, allow_fns, seen, depth):
     return [Fate('escapes', c, 'argument %d of %s' % (idx, c.name))]
 
 
+# combinators whose result is Ok/Some exactly when ... the receiver was (for and_then: only if)
+OK_PRESERVING = {
+    'std::result::Result::<T, E>::map', 'std::result::Result::<T, E>::map_err', 'std::result::Result::<T, E>::and_then',
+    'std::result::Result::<T, E>::inspect_err', 'std::result::Result::<T, E>::inspect',
+    'std::result::Result::<std::option::Option<T>, E>::transpose',
+    'std::result::Result::<T, E>::as_ref', 'std::result::Result::<T, E>::as_mut',
+    'std::result::Result::<&T, E>::cloned', 'std::result::Result::<&T, E>::copied', 'std::hint::must_use',
+    'std::option::Option::<T>::map', 'std::option::Option::<T>::and_then', 'std::option::Option::<T>::ok_or',
+    'std::option::Option::<T>::ok_or_else', 'std::option::Option::<T>::inspect', 'std::option::Option::<T>::as_ref',
+    'std::option::Option::<&T>::cloned', 'std::option::Option::<&T>::copied',
+}
+
+
+def ok_on_success(prog, fn, call, site_bbs=None):
+    """does `fn` reaching one of its success sites imply that the Result / Option produced by `call` was Ok / Some?
+    True only for: `?`, unwrap / expect, being returned as fn's own result, Ok-preserving combinators followed by one of
+    those, and a match / let-else whose non-Ok arms cannot reach a success site.  Handing the value to anything that may
+    turn a failure into a success (`.or(..)`, `.ok()`, `unwrap_or*`, a tolerant helper such as
+    `default_on_not_found(..)`) is False."""
+    dest = call.dest
+    if dest is None or len(dest) > 1:
+        return False
+    if dest[0] == 0:
+        return True
+    if site_bbs is None:
+        from .effects import success_sites
+        site_bbs = {s.bb for s in success_sites(fn)}
+    return _ok_local(prog, fn, dest[0], set(site_bbs), set(), 0)
+
+
+def _ok_local(prog, fn, local, site_bbs, seen, depth):
+    if (fn.path, local) in seen or depth > 10:
+        return False
+    seen.add((fn.path, local))
+    real = [u for u in fn.uses_of(local) if u[1] != 'drop']
+    if not real:
+        return False
+    decided = False
+    for (bi, kind, idx, how, pl) in real:
+        if kind == 'arg':
+            c = fn.call_at(bi)
+            if c.indirect:
+                return False
+            names = c.names()
+            if TRY in names or any(n.endswith('as std::ops::Try>::branch') for n in names) or names & PANICKING:
+                decided = True
+                continue
+            if names & OK_PRESERVING and idx == 0:
+                if c.dest and c.dest[0] == 0 and len(c.dest) == 1:
+                    decided = True
+                    continue
+                if c.dest and len(c.dest) == 1 and _ok_local(prog, fn, c.dest[0], site_bbs, seen, depth + 1):
+                    decided = True
+                    continue
+            return False
+        if kind == 'stmt':
+            st = fn.blocks[bi]['s'][idx]
+            target, rv = st[1], st[2]
+            projs = pl[1:]
+            if how == 'discr':
+                # match / let-else: every arm other than Ok / Some must be unable to reach a success site
+                if not _non_ok_arms_fail(fn, bi, target, rv, site_bbs):
+                    return False
+                decided = True
+                continue
+            if projs:
+                continue   # payload reads are governed by the discriminant read
+            if rv['r'] in ('use', 'ref', 'cast'):
+                if target[0] == 0 and len(target) == 1:
+                    decided = True
+                    continue
+                if len(target) == 1 and _ok_local(prog, fn, target[0], site_bbs, seen, depth + 1):
+                    decided = True
+                    continue
+            return False
+        return False
+    return decided
+
+
+def _non_ok_arms_fail(fn, bi, target, rv, site_bbs):
+    variants = dict(rv.get('variants') or ())
+    if not variants or len(target) != 1:
+        return False
+    found = False
+    for sb, blk in enumerate(fn.blocks):
+        t = blk['t']
+        if t['t'] != 'switch':
+            continue
+        p = op_place(t['o'])
+        if not p or p[0] != target[0]:
+            continue
+        found = True
+        listed = [v for v, _ in t['targets']]
+        bad = [tb for v, tb in t['targets'] if variants.get(v) not in ('Ok', 'Some')]
+        if any(n not in ('Ok', 'Some') for v, n in variants.items() if v not in listed):
+            bad.append(t['else'])
+        for tb in bad:
+            if fn.reachable(tb) & site_bbs:
+                return False
+    return found
+
+
 def _reads_param(fn, local):
     """is the parameter local used as a call argument or moved into another value (not merely dropped)"""
     for bi, kind, idx, how, pl in fn.uses_of(local):
